@@ -206,5 +206,18 @@ pub fn programs() -> Vec<(String, Program)> {
         ];
         out.push(("cross-overlap".into(), Program { defs, roots }));
     }
+    // 9. instantiation arguments that are transparent wrappers, registered FIRST
+    {
+        let defs = vec![strukt(&["w", "Wrapper"], &[("T", false)], vec![
+            f(Some("value"), Src::Param(0)),
+            f(Some("many"), Src::Vec(bx(Src::Param(0)))),
+        ])];
+        let roots = vec![
+            Src::App(0, vec![Src::Cow(bx(Src::Prim("str")))]),
+            Src::App(0, vec![Src::Prim("u32")]),
+            Src::App(0, vec![Src::Cow(bx(Src::Vec(bx(Src::Prim("u16")))))]),
+        ];
+        out.push(("cow-args".into(), Program { defs, roots }));
+    }
     out
 }
